@@ -91,6 +91,11 @@ func (g *Gen) instr(in ssa.Instruction, st *State, reach string) bool {
 		case *types.Array:
 			g.safeObl("safe-idx", fmt.Sprintf("(and (<= 0 %s) (< %s %d))", i.S, i.S, u.Len()), reach, in.Pos(), "array index in range")
 			g.define(in, "(select "+x.S+" "+i.S+")")
+		case *types.Basic:
+			g.uses["str"] = true
+			g.seeIndex(i.S)
+			g.safeObl("safe-idx", fmt.Sprintf("(and (<= 0 %s) (< %s (str.len %s)))", i.S, i.S, x.S), reach, in.Pos(), "string index in range")
+			g.define(in, "(str.to_code (str.at "+x.S+" "+i.S+"))")
 		default:
 			g.fail(in.Pos(), "Index on %s", in.X.Type())
 		}
@@ -727,6 +732,15 @@ func (g *Gen) convertSVg(x *SV, from, to types.Type, pos token.Pos, reach string
 		return g.convertSV(&SV{S: x.S, T: from}, to)
 	case isString(from) && isString(to):
 		return &SV{S: x.S, T: to}
+	case isInteger(from) && isString(to):
+		g.uses["str"] = true
+		two := fmt.Sprintf("(str.++ (str.from_code (+ 192 (div %[1]s 64))) (str.from_code (+ 128 (mod %[1]s 64))))", x.S)
+		if intBits(from) == 8 && isUnsigned(from) {
+			return &SV{S: fmt.Sprintf("(ite (< %[1]s 128) (str.from_code %[1]s) %[2]s)", x.S, two), T: to}
+		}
+		g.declareFun("ext.runestr", []string{"Int"}, "String")
+		g.trusted["string(rune) for code points >= 2048 modelled as an uninterpreted function"] = true
+		return &SV{S: fmt.Sprintf("(ite (and (<= 0 %[1]s) (< %[1]s 128)) (str.from_code %[1]s) (ite (and (<= 128 %[1]s) (< %[1]s 2048)) %[2]s (ext.runestr %[1]s)))", x.S, two), T: to}
 	}
 	if _, ok := to.Underlying().(*types.Pointer); ok {
 		if b, ok := from.Underlying().(*types.Basic); ok && b.Kind() == types.UnsafePointer {
